@@ -59,6 +59,10 @@ def run_shard(shard, rec):
                 if kind in KINDS:
                     rec.count(f"depth_{depth(ref)}")
                     rec.sample(dict(case=fc.short(), reference=kind, decoder=t.okind()), bucket=f"sample_{kind}", cap=2)
+            for fc in cases.nested_pair_faults(base, bref, rng, limit=None if thorough else 2):
+                ref, t, kind = _strict.evaluate(fc, rec, KINDS)
+                rec.case(fc.sig, nontrivial=kind in KINDS)
+                rec.count("nested_pair_faults")
             if thorough and len(faults) >= 2:
                 for _ in range(4):
                     f1, f2 = rng.sample(faults, 2)
